@@ -311,6 +311,7 @@ func (c12) execMulti(f []string) (string, []Fail) {
 		return "bad-op", []Fail{{"multi.infra", "cannot write the sheet: " + err.Error()}}
 	}
 	var outRecs, unidRecs []string
+	unidOrder := ""
 	mst := guardT(30*time.Second, func() string {
 		if err := c12SetMplexOptions(sheetFn, m.keep, unidFn, c.e, c.indel); err != nil {
 			return "options: " + err.Error()
@@ -324,6 +325,10 @@ func (c12) execMulti(f []string) (string, []Fail) {
 		if err != nil {
 			return "error"
 		}
+		// Batches travel with their batch number and arrive in ANY order (parallel workers): an order-sensitive consumer
+		// sorts them (SortBatches), as every writer of the commands does.  Without it the comparison below would depend on
+		// the schedule.
+		out = out.SortBatches()
 		var got obiseq.BioSequenceSlice
 		for out.Next() {
 			got = append(got, out.Get().Slice()...)
@@ -341,7 +346,32 @@ func (c12) execMulti(f []string) (string, []Fail) {
 				if err != nil {
 					return "unidentified-file-unreadable"
 				}
-				_, us := rd.Load()
+				// ReadFasta cuts the file into chunks — for a small file: everything but the last record, then the last record —
+				// parsed by parallel workers; the header-parsing stage (IParseFastSeqHeaderBatch) delivers the numbered batches
+				// in ARRIVAL order and Load() appends them as they come (Model/IterMore.lean `load`: "the callers sort
+				// upstream").  Reading the batches in batch order is the harness's job: with a bare Load() the last record of
+				// the file came first in ~5 % of the readings (reproduced on a 6-record file: 187 of 3000 readings, 0 of 3000 with
+				// SortBatches), and the stable sort by read number below then exchanged the last two records of one read (alarm
+				// of the unchanged-tree sweep, thorough seed 1).  The FILE was in the right order: checked below on its bytes.
+				_, us := rd.SortBatches().Load()
+				if raw, err := os.ReadFile(unidFn); err == nil {
+					var fileIds, readIds []string
+					for _, ln := range strings.Split(string(raw), "\n") {
+						if strings.HasPrefix(ln, ">") {
+							fileIds = append(fileIds, strings.Fields(ln[1:] + " ")[0])
+						}
+					}
+					for _, s := range us {
+						readIds = append(readIds, s.Id())
+					}
+					if strings.Join(fileIds, " ") != strings.Join(readIds, " ") {
+						unidOrder = "records of the -u file in file order: " + strings.Join(fileIds, " ") + "  VERSUS read back in batch order: " + strings.Join(readIds, " ")
+					}
+					sorted := sort.SliceIsSorted(fileIds, func(a, b int) bool { return c12ReadNo(fileIds[a]) < c12ReadNo(fileIds[b]) })
+					if !sorted {
+						unidOrder = "the -u file does not hold the records in the order of the reads: " + strings.Join(fileIds, " ")
+					}
+				}
 				sort.SliceStable(us, func(a, b int) bool { return c12ReadNo(us[a].Id()) < c12ReadNo(us[b].Id()) })
 				for _, s := range us {
 					e, _ := s.GetAttribute("obimultiplex_error")
@@ -359,6 +389,9 @@ func (c12) execMulti(f []string) (string, []Fail) {
 	us := "-"
 	if m.unid {
 		us = strings.Join(unidRecs, " ## ")
+	}
+	if unidOrder != "" {
+		fails = append(fails, Fail{"mplex.unid-file-order", unidOrder})
 	}
 	// oracle (statement of the property): without --keep-errors / with -u every record of the main output carries a sample and
 	// no error; with -u every unidentified record carries an error; nothing is lost
